@@ -20,7 +20,7 @@ using conditional_t = typename std::conditional_t<Cond_, Iftrue_, Iffalse_>;
 //real + cmplx -> cmplx
 //cmplx + real -> cmplx
 template<typename T1, typename T2>
-using ResultType = conditional_t<std::is_same_v<T1, cmplx_t> || std::is_same_v<T2, cmplx_t>, cmplx_t, real_t>;
+using ResultType = conditional_t<is_complex_v<T1> || is_complex_v<T2>, cmplx_t, real_t>;
 
 template<typename T_dst, typename T_src>
 base_array<T_dst> array_cast(const base_array<T_src>& src) noexcept {
